@@ -849,11 +849,9 @@ static enum cc_stat expand_capacity(CC_Array *ar)
     /* As long as the capacity is greater that the expansion factor
      * at the point of overflow, this is check is valid. */
     if (new_capacity <= ar->capacity)
-        ar->capacity = CC_MAX_ELEMENTS;
-    else
-        ar->capacity = new_capacity;
+        new_capacity = CC_MAX_ELEMENTS;
 
-    void **new_buff = ar->mem_alloc(ar->capacity * sizeof(void*));
+    void **new_buff = ar->mem_alloc(new_capacity * sizeof(void*));
 
     if (!new_buff)
         return CC_ERR_ALLOC;
@@ -861,7 +859,8 @@ static enum cc_stat expand_capacity(CC_Array *ar)
     memcpy(new_buff, ar->buffer, ar->size * sizeof(void*));
 
     ar->mem_free(ar->buffer);
-    ar->buffer = new_buff;
+    ar->buffer   = new_buff;
+    ar->capacity = new_capacity;
 
     return CC_OK;
 }
